@@ -222,6 +222,11 @@ class Chan(Engine):
             for c in A58:
                 self._b58_decode_check(text[:p] + c + text[p:], 'after inserting a character at %d' % p, fault='ins')
         ctx.fault('text.insertion', (n + 1) * 58)
+        # whitespace and control characters a careless copy-paste or file read adds
+        for c in ('\n', '\r', '\r\n', ' ', '\t', '\x00', '\x0b', '\x0c', '\u00a0', '\u2028'):
+            for t in (text + c, c + text, text[:n // 2] + c + text[n // 2:], text + c + c):
+                self._b58_decode_check(t, 'with the whitespace/control character %r added' % c, fault='ws')
+        ctx.fault('text.whitespace', 40)
         # --- byte-layer faults before encoding (corruption at rest): reaches decoded lengths < 5
         raw = bytes([ver]) + payload + RB58.dsha(bytes([ver]) + payload)[:4]
         for p in range(len(raw)):
@@ -284,6 +289,21 @@ class Chan(Engine):
         self._str_pair(s)
         ctx.carry()
         p = a['pos'] % (len(s) + 1)
+        for ws in ('\n', '\r\n', ' ', '\t', '\x00'):
+            for t in (s + ws, ws + s):
+                if not t.strip(ws) and not s:
+                    pass
+                try:
+                    B58.decode(t)
+                    ctx.check(False, 'C10.errclass', 'a string with the whitespace/control character %r %s decoded without the invalid-base58 error'
+                              % (ws, 'appended' if t.startswith(s) and s else 'prepended'), ws=repr(ws))
+                except B58.InvalidBase58Error:
+                    pass
+                except StopRun:
+                    raise
+                except Exception as e:
+                    ctx.check(False, 'C10.errclass', 'whitespace/control character %r raised %s instead of the invalid-base58 error' % (ws, type(e).__name__), ws=repr(ws))
+        ctx.fault('text.whitespace', 10)
         bad = s[:p] + a['bad'] + s[p:]
         try:
             B58.decode(bad)
